@@ -1,0 +1,34 @@
+//go:build verif
+
+// Contracts for the parser runtime generated with -noast (no token buffer, no memoisation; captures
+// are assigned to `text` inline and actions run inline). Read by /verif/govc (comment-only).
+// TXT(r, p, t) is the value of `text` after attempting rule r at p when it was t before;
+// LOG(r, p, l, t) is the ghost log of executed actions after that attempt.
+
+package tree
+
+//@ pred inputOK() = n >= 0 && runeAtC(n) == 1114112 && forall(i, imp(0 <= i && i < n, 0 <= runeAtC(i) && runeAtC(i) <= 1114111))
+//@ pred RT() = p != nil && elems(buffer) == bufc && soff(buffer) == 0 && len(buffer) == n+1 && inputOK()
+//@      && 0 <= position && position <= n && n+1 <= maxU
+//@      && maxToken.begin <= maxToken.end && maxToken.end <= n
+
+//@ closure Init.add
+//@   requires RT() && begin <= position
+//@   ensures  RT() && position == old(position) && tokenIndex == old(tokenIndex) + 1
+//@   modifies var tokenIndex, maxToken
+
+//@ closure Init.matchDot
+//@   requires RT()
+//@   ensures  RT() && result == (old(position) < n) && position == old(position) + ite(result, 1, 0)
+//@   modifies var position
+
+//@ closure Init.$rule
+//@   requires RT()
+//@   ensures[C13] RT()
+//@   ensures[C07] result == OK(r, old(position))
+//@   ensures[C07] imp(result, position == END(r, old(position)) && old(position) <= position)
+//@   ensures[C07] imp(!result, position == old(position) && tokenIndex == old(tokenIndex))
+//@   ensures[C07] imp(AS(r), result)
+//@   ensures[C07] text == TXT(r, old(position), old(text))
+//@   ensures[C07] alog == LOG(r, old(position), old(alog), old(text))
+//@   modifies var position, tokenIndex, maxToken, text, alog
